@@ -42,6 +42,7 @@ type RefElem struct {
 	Claim    types.Currency // claim start
 	FC       types.FileContract
 	V2FC     types.V2FileContract
+	RevAt    uint64 // height of the block that accepted the latest v2 revision (creation height if never revised)
 	Att      types.Attestation
 	CI       types.ChainIndex
 	Valid    bool // v1 resolution kind
@@ -76,6 +77,10 @@ type RefLedger struct {
 	TaxPool   *big.Int // cumulative tax collected
 	Claims    *big.Int // cumulative claims paid
 	Forfeited *big.Int // v2 expirations: host - missedHost
+	// Overpaid: v2 expirations that paid MORE than the contract held (missed host value above the host output);
+	// OverpaidCurrent is set if one of them stems from a revision accepted at or above the ephemeral-output height.
+	Overpaid        *big.Int
+	OverpaidCurrent bool
 	Minted    *big.Int // block rewards + foundation subsidies (incl. genesis payouts)
 	Genesis   *big.Int // siacoins allocated by genesis transactions
 	GenesisSF uint64
@@ -88,7 +93,7 @@ type RefLedger struct {
 // NewRefLedger creates an empty ledger.
 func NewRefLedger(n *consensus.Network) *RefLedger {
 	return &RefLedger{Elems: map[types.Hash256]*RefElem{}, TaxPool: new(big.Int), Claims: new(big.Int),
-		Forfeited: new(big.Int), Minted: new(big.Int), Genesis: new(big.Int), Net: n,
+		Forfeited: new(big.Int), Overpaid: new(big.Int), Minted: new(big.Int), Genesis: new(big.Int), Net: n,
 		FndPrimary: n.HardforkFoundation.PrimaryAddress, FndFailsafe: n.HardforkFoundation.FailsafeAddress}
 }
 
@@ -105,6 +110,7 @@ func (r *RefLedger) Clone() *RefLedger {
 	c.TaxPool = new(big.Int).Set(r.TaxPool)
 	c.Claims = new(big.Int).Set(r.Claims)
 	c.Forfeited = new(big.Int).Set(r.Forfeited)
+	c.Overpaid = new(big.Int).Set(r.Overpaid)
 	c.Minted = new(big.Int).Set(r.Minted)
 	c.Genesis = new(big.Int).Set(r.Genesis)
 	return &c
@@ -218,6 +224,7 @@ func (r *RefLedger) ApplyBlock(b types.Block) (eff Effects) {
 	touched := map[types.Hash256]bool{}
 	create := func(e *RefElem) {
 		e.Created = h
+		e.RevAt = h
 		r.add(e)
 		created[e.ID] = true
 		eff.Created = append(eff.Created, e.ID)
@@ -337,6 +344,7 @@ func (r *RefLedger) ApplyBlock(b types.Block) (eff Effects) {
 			}
 			e = r.Mut(e.ID)
 			e.V2FC = rev.Revision
+			e.RevAt = h
 			touch(e.ID)
 		}
 		for _, res := range txn.FileContractResolutions {
@@ -352,7 +360,14 @@ func (r *RefLedger) ApplyBlock(b types.Block) (eff Effects) {
 				renter, host = fc.RenterOutput, fc.HostOutput
 			case *types.V2FileContractExpiration:
 				renter, host = fc.RenterOutput, types.SiacoinOutput{Value: fc.MissedHostValue, Address: fc.HostOutput.Address}
-				r.Forfeited.Add(r.Forfeited, new(big.Int).Sub(fc.HostOutput.Value.Big(), fc.MissedHostValue.Big()))
+				if d := new(big.Int).Sub(fc.HostOutput.Value.Big(), fc.MissedHostValue.Big()); d.Sign() >= 0 {
+					r.Forfeited.Add(r.Forfeited, d)
+				} else {
+					r.Overpaid.Sub(r.Overpaid, d)
+					if e.RevAt >= r.Net.HardforkV2.EphemeralOutputHeight {
+						r.OverpaidCurrent = true
+					}
+				}
 			}
 			create(&RefElem{Kind: KSC, ID: types.Hash256(res.Parent.ID.V2RenterOutputID()), SC: renter, Maturity: maturity})
 			create(&RefElem{Kind: KSC, ID: types.Hash256(res.Parent.ID.V2HostOutputID()), SC: host, Maturity: maturity})
@@ -487,6 +502,7 @@ func (r *RefLedger) Supply() (lhs, rhs *big.Int) {
 	lhs.Add(lhs, new(big.Int).Sub(r.TaxPool, r.Claims))
 	lhs.Add(lhs, r.Forfeited)
 	rhs = new(big.Int).Add(r.Genesis, r.Minted)
+	rhs.Add(rhs, r.Overpaid) // reported separately (checkSupply), so that the cause is named
 	return
 }
 
